@@ -49,7 +49,7 @@ def edit(r, lines):
 
 
 def gen_history(r):
-    kind, code = gens.text_case(r.random(), 'c04-seed', 0, ['valid', 'corpus', 'oneliner', 'valid'])
+    kind, code = gens.text_case(r.random(), 'c04-seed', 0, ['valid', 'corpus', 'oneliner', 'semantic'])
     from parso.utils import split_lines
     code = code[:3000]
     nl = r.random()
